@@ -1,6 +1,7 @@
 package interpreter
 
 import (
+	"bufio"
 	"fmt"
 	"math"
 	"reflect"
@@ -16,6 +17,7 @@ import (
 // Interpreter struct represents the execution context for evaluating expressions and statements.
 type Interpreter struct {
 	globals *environment.Environment
+	stdin   *bufio.Reader // shared by all ইনপুট calls of this run
 }
 
 type ControlFlowSignal struct {
